@@ -98,10 +98,24 @@ func (e *Engine) verifyAll(fns []*ssa.Function, cfg SolverCfg, par int) []*FuncR
 	for _, f := range fns {
 		e.frameOf(f)
 	}
+	// large functions first (long poles), results stay in the caller's order
+	order := make([]int, len(fns))
+	for i := range order {
+		order[i] = i
+	}
+	size := func(f *ssa.Function) int {
+		n := 0
+		for _, b := range f.Blocks {
+			n += len(b.Instrs)
+		}
+		return n
+	}
+	sort.Slice(order, func(a, b int) bool { return size(fns[order[a]]) > size(fns[order[b]]) })
 	sem := make(chan struct{}, par)
 	var wg sync.WaitGroup
 	// generation touches shared engine maps (frames, ids): serialise generation, parallelise solving
-	for i, f := range fns {
+	for _, i := range order {
+		f := fns[i]
 		wg.Add(1)
 		sem <- struct{}{}
 		go func(i int, f *ssa.Function) {
